@@ -895,7 +895,7 @@ pub fn install_quiet_panic_hook() {
     let default = std::panic::take_hook();
     std::panic::set_hook(Box::new(move |info| {
         let p = info.payload();
-        if p.is::<StopToken>() || p.is::<AbortToken>() || p.is::<AccessBoundToken>() {
+        if p.is::<StopToken>() || p.is::<AbortToken>() || p.is::<AccessBoundToken>() || p.is::<u8>() || p.downcast_ref::<&str>().map_or(false, |s| s.contains("access bound exceeded")) {
             return;
         }
         default(info);
